@@ -150,8 +150,8 @@ theorem mutation_sound_record {S P A : Type} [DecidableEq P] (Sg : SigScheme S K
   rw [← hx4, ← hy4]
 
 /-! ## the executable Spec accepts the model's decision -/
-theorem specEnvelope_decide (f : Facts) : specEnvelope f (decide f).1 (decide f).2 = true := by
-  unfold specEnvelope decide
+theorem specEnvelope_decide (f : Facts) : specEnvelope f (decideEnv f).1 (decideEnv f).2 = true := by
+  unfold specEnvelope decideEnv
   cases h1 : f.expectedTypeMatches <;> cases h2 : f.sigValid <;> simp
 
 theorem specRecord_decide (f : RecFacts) : specRecord f (decideRec f) = true := by
@@ -163,11 +163,11 @@ theorem specRecord_decide (f : RecFacts) : specRecord f (decideRec f) = true := 
 theorem decide_is_model (vf : K → List Nat → List Nat → Bool) (e : Envelope K) (d ty : List Nat) (f : Facts)
     (hsig : f.sigValid = vf e.key (signaturePayload d e.payloadType e.payload) e.signature)
     (hty : f.expectedTypeMatches = decide (e.payloadType = ty)) :
-    (decide f).2 = (match e.payloadAndSigningKey vf d ty with
+    (decideEnv f).2 = (match e.payloadAndSigningKey vf d ty with
       | .ok _ => .ok
       | .error .unexpectedPayloadType => .errType
       | .error .invalidSignature => .errSig) := by
-  unfold C21.decide Envelope.payloadAndSigningKey Envelope.verify
+  unfold decideEnv Envelope.payloadAndSigningKey Envelope.verify
   by_cases h1 : e.payloadType = ty
   · cases h2 : vf e.key (signaturePayload d e.payloadType e.payload) e.signature <;> simp_all
   · simp_all
@@ -181,7 +181,8 @@ def toy : SigScheme (List Nat) (List Nat) where
   sign_verify := by intro sk m; simp
   euf_cma := by intros; trivial
 
-example : signaturePayload [1] [2, 3] [] = [1, 1, 2, 2, 3, 0] := by decide
+example : (Envelope.new toy.sign toy.pk [9] [1] [2] [3]).payloadAndSigningKey toy.verify [1] [2] = .ok ([3], [9]) :=
+  new_accepted toy [9] [1] [2] [3]
 
 end C21
 
